@@ -81,6 +81,10 @@ CHECKS = {
    text="Robustness property testing of all 11 writers over generated contents (empty, plausible, arbitrary bytes, non-Latin, very long, mode-oscillation shapes), all 17 format values, negative / zero / large sizes and rapid hint maps with in- and out-of-range values, under recover() and a watchdog; oracle: returns, matrix xor error, matrix never smaller than the symbol it depicts nor (QR, 1-D) than the request.",
    note="Totality over generated inputs only. The symbol's own dimensions are obtained from the same writer at 0x0 / margin 0 (QR: Encoder_encode) for the same content and non-geometry hints.",
    tech="robustness property testing (rapid) with a totality and size oracle"),
+ "C18": dict(cat="exploration", ref="DESIGN.md §4 C18",
+   text="Schedule exploration under the Go race detector: rapid-generated workloads of 2..64 goroutines with private reader / writer / codec instances over all symbologies, varying GOMAXPROCS, start staggering and yield points; any race report is a violation, and every concurrent result must equal the result of the same operation run alone afterwards. Per-family in-flight counters measure how many configurations really overlapped on the same package-level tables.",
+   note="The race detector only reports races on executed paths and interleavings that occurred; rare interleavings on paths no workload drives stay unseen. Exploration is the honest level; model checking the shared state is outside this technique family.",
+   tech="randomised concurrent workloads under -race with a sequential-equivalence oracle"),
 }
 
 NOT_YET = {}
